@@ -6,6 +6,8 @@ from sa.reach import Reaching
 _cache = {}
 from sa import util as _util
 _util._resetters.append(_cache.clear)
+from sa import cfg as _cfgmod
+_util._resetters.append(_cfgmod._guard_cache.clear)
 class FuncInfo:
     def __init__(s, fn):
         s.fn = fn; s.cfg = CFG(fn); s.cd = control_dependence(s.cfg); s.rd = Reaching(s.cfg, fn)
